@@ -27,6 +27,11 @@ CLAIMED = {
          "Every step id of the recorded fault-free dialogue is replaced by each of {4yz, 5yz, drop} for every capability subset (64 in thorough, 8 per seed in quick) x 2 client configurations: complete for <= 1 fault on those configurations; multi-fault scripts and other configurations are sampled by rapid.",
          "The reference server's strictness (Postfix-like) is the oracle; in-memory transport; pipelining is detected only when two commands arrive in one read. The SASL cancel line after a final AUTH reply is a recorded known finding.",
          "DESIGN.md section 3, C04"),
+ "C05": ("exploration",
+         "rapid-constructed addresses (dot-atom and quoted-string local parts over specials, blanks, UTF-8, parameter lookalikes), HELO names, credentials and DSN options; oracle: own strict RFC 5321 command/path/esmtp-param parser on every line the reference server receives, parsed paths == the mailbox the generator constructed",
+         "Generated-input search with a grammar-based oracle; the generator constructs addresses (no rejection sampling) and knows the expected mailbox without asking net/mail. Sampled, not exhaustive.",
+         "A HELO name that is a single token but not a syntactically valid domain is not judged (not smuggling); UTF-8 local parts are accepted regardless of SMTPUTF8; an abandoned transaction (no DATA) counts as a refusal.",
+         "DESIGN.md section 3, C05"),
  "C11": ("exploration",
          "rapid-generated message programs x generated histories of render operations (WriteTo, Write, NewReader, UpdateReader, WriteToFile, WriteToTempFile, failed renders by sink or producer fault); metamorphic oracle: every successful output is byte-identical to the first",
          "Generated histories against a byte-equality oracle; shapes, file sources/encodings and op sequences are sampled by rapid. Map-order dependent differences need several renders to show, so every history renders at least 4 times.",
